@@ -7,6 +7,7 @@ CONSTANTS Producers = {"p1", "p2"}
           Locks = TRUE
           RealTime = FALSE
           Disconnect = FALSE
+          FatalEvery = 0
           NMsgs = 2
           ScriptSet = {"dtorquit"}
           Script2Set = {"none"}
